@@ -23,14 +23,35 @@ struct Base {
     model: (Vec<u128>, Vec<u128>, Vec<u128>, Vec<bool>),
 }
 
-/// `pending`: the world starts with uncollected protocol fees from an earlier, honestly repaid loan on each vault
+/// `pending`: the world starts with uncollected protocol fees from an earlier, honestly repaid loan on each vault;
+/// bit 1 of `flavour` (flavour = pending as u8 | owned << 1): the borrower contract owns both vaults
 fn base_world(fees: [u128; 3], liq: u128, pending: bool) -> Base {
+    base_world2(fees, liq, pending, false)
+}
+
+fn base_world2(fees: [u128; 3], liq: u128, pending: bool, borrower_owns: bool) -> Base {
     let mut wd = seeded_world([fees, fees], [liq, liq]);
+    if borrower_owns {
+        for v in 0..2 {
+            let (o, f, va, b) = (wd.owner.clone(), wd.vfactory.clone(), wd.vaults[v].addr.clone(), wd.borrower.clone());
+            exec(
+                &mut wd.app,
+                &o,
+                &f,
+                &white_whale_std::vault_network::vault_factory::ExecuteMsg::UpdateVaultConfig {
+                    vault_addr: va.to_string(),
+                    params: white_whale_std::vault_network::vault::UpdateConfigParams { flash_loan_enabled: None, deposit_enabled: None, withdraw_enabled: None, new_owner: Some(b.to_string()), new_vault_fees: None, new_fee_collector_addr: None },
+                },
+                &[],
+            )
+            .expect("hand the vault to the borrower");
+        }
+    }
     if pending {
         let mut dummy = Acc::new(0);
         for v in 0..2 {
             let amt = liq / 3;
-            let s = Sym { pre: Pre::None, pre_swallow: false, repay_first: false, rep: Rep::Exact };
+            let s = Sym { pre: Pre::None, pre_swallow: false, repay_first: false, rep: Rep::Exact, pre2: None };
             let script = bind(&wd, v, amt, &s, 0);
             let _ = monitored_loan(&mut dummy, &mut wd, 1, v, amt, How::Direct(script), "warm-up loan (leaves pending protocol fees)");
         }
@@ -186,6 +207,29 @@ pub fn run(ctx: &Ctx) -> (CheckMeta, Acc) {
                 acc.add(&format!("trap-site: {k}"), v);
             }
         }
+        // hand-picked two-step scripts (siblings, action after a nested loan, owner-borrower) on every flavour of base world
+        let specials = special_scripts();
+        for (fi, f) in fees.iter().enumerate() {
+            for (pending, owned) in [(false, false), (true, false), (true, true), (false, true)] {
+                let mut base = base_world2(*f, liq, pending, owned);
+                if owned {
+                    acc.count("base.borrower-owns-the-vault");
+                }
+                for v in 0..2 {
+                    for ai in [3usize, 4] {
+                        for s in specials.iter() {
+                            idx += 1;
+                            if idx % 16 != sh || replay_h.map(|h| h != idx).unwrap_or(false) {
+                                continue;
+                            }
+                            acc.history = idx;
+                            acc.count("special-script.run");
+                            run_case(acc, &mut base, v, ai, Some(s), None, fi);
+                        }
+                    }
+                }
+            }
+        }
         acc.notes.insert("enumerated_index_max".into(), json!(idx));
         // depth 3: seeded sample
         let ph = hash_str("C06-depth3");
@@ -200,7 +244,7 @@ pub fn run(ctx: &Ctx) -> (CheckMeta, Acc) {
             let mut r = Rng::from_parts(&[ctx.seed, ph, sh, i]);
             let fi = r.idx(fees.len());
             let inner2 = r.pick(&d2).clone();
-            let s = Sym { pre: Pre::Nested { other_vault: r.chance(1, 2), frac: if r.chance(1, 2) { 1 } else { 2 }, inner: Box::new(inner2) }, pre_swallow: r.chance(1, 2), repay_first: false, rep: r.pick(&[Rep::Exact, Rep::Minus1, Rep::Plus, Rep::Nothing, Rep::PrincipalOnly]).clone() };
+            let s = Sym { pre: Pre::Nested { other_vault: r.chance(1, 2), frac: if r.chance(1, 2) { 1 } else { 2 }, inner: Box::new(inner2) }, pre_swallow: r.chance(1, 2), repay_first: false, rep: r.pick(&[Rep::Exact, Rep::Minus1, Rep::Plus, Rep::Nothing, Rep::PrincipalOnly]).clone(), pre2: if r.chance(1, 3) { Some(Box::new(match r.below(4) { 0 | 1 => Pre::Nested { other_vault: false, frac: 2, inner: Box::new(r.pick(&d1).clone()) }, 2 => Pre::Deposit, _ => Pre::Collect })) } else { None } };
             let v = r.idx(2);
             let ai = r.idx(6);
             acc.count("depth3.sampled");
@@ -210,12 +254,12 @@ pub fn run(ctx: &Ctx) -> (CheckMeta, Acc) {
     });
     let meta = CheckMeta {
         level: "fault_enumeration",
-        rule: format!("borrower alphabet: pre-action in {{none, deposit, withdraw, collect, update-config attempt, fail, panic}} x {{propagating, swallowed}} (+ repay-first variants) x repay mode in {{exact, minus1, plus(k), nothing, principal-only}} = {} depth-1 scripts; nested loans (same/other vault, all/half of what is left, propagating/swallowed) carry a script of the previous depth: {} depth-2 scripts. Enumerated exhaustively: depth-1 scripts and the 8 router payload kinds over the full product {{native, cw20}} x 6 loan amounts {{1, 999, 1000, bal/2, bal, bal+1}} x 5 fee triples x {{fresh vault, vault holding uncollected protocol fees of an earlier loan}}; depth-2 scripts over {} ; depth-3 scripts are a seeded sample. Every top-level transaction is judged by L0-L9 (+V1, C07 ledger, U1). evaluations = transactions; distinct = distinct (kind, vault, amount index, fee set, script label, committed?) tuples.", d1.len(), d2.len(), if thorough { "the full product" } else { "amounts {bal/2, bal} x fee sets {zero, typical-with-burn} x both vaults" }),
+        rule: format!("borrower alphabet: pre-action in {{none, deposit, withdraw, collect, update-config attempt, fail, panic}} x {{propagating, swallowed}} (+ repay-first variants) x repay mode in {{exact, minus1, plus(k), nothing, principal-only}} = {} depth-1 scripts; nested loans (same/other vault, all/half of what is left, propagating/swallowed) carry a script of the previous depth: {} depth-2 scripts. Enumerated exhaustively: depth-1 scripts and the 8 router payload kinds over the full product {{native, cw20}} x 6 loan amounts {{1, 999, 1000, bal/2, bal, bal+1}} x 5 fee triples x {{fresh vault, vault holding uncollected protocol fees of an earlier loan}}; depth-2 scripts over {} ; depth-3 scripts are a seeded sample; 21 hand-picked two-step scripts (sibling loans, an action after a completed nested loan, depth 3, the borrower as owner of the vault switching loans off before depositing) run on every fee triple x {{fresh, pending fees}} x {{factory-owned, borrower-owned vault}} x both vaults x amounts {{bal/2, bal}}. Every top-level transaction is judged by L0-L9 (+V1, C07 ledger, U1). evaluations = transactions; distinct = distinct (kind, vault, amount index, fee set, script label, committed?) tuples.", d1.len(), d2.len(), if thorough { "the full product" } else { "amounts {bal/2, bal} x fee sets {zero, typical-with-burn} x both vaults" }),
         assumptions: vec![
             "committed facts of a transaction are read from its event list (cw-multi-test drops the events of reverted sub-messages) and from state diffs".into(),
             "the borrower's swallowed sub-calls are wrapped in a self-call with reply_on: Error".into(),
         ],
-        obligations: vec!["loan.ok".into(), "loan.reverted".into(), "loan.ok.with-nested-loans".into(), "check.L1.vault-gain".into(), "check.L3.burn-destroyed".into(), "check.L5.counter-zero".into(), "check.L6.no-mint-during-loan".into(), "check.L7.router-keeps-nothing".into(), "check.L8.exact-suffices".into(), "check.L9.one-less-never-suffices".into(), "check.L8.router-exact-suffices".into(), "check.L9.router-one-less-never-suffices".into(), "depth3.sampled".into(), "check.U1".into(), "base.with-pending-protocol-fees".into()],
+        obligations: vec!["loan.ok".into(), "loan.reverted".into(), "loan.ok.with-nested-loans".into(), "check.L1.vault-gain".into(), "check.L3.burn-destroyed".into(), "check.L5.counter-zero".into(), "check.L6.no-mint-during-loan".into(), "check.L7.router-keeps-nothing".into(), "check.L8.exact-suffices".into(), "check.L9.one-less-never-suffices".into(), "check.L8.router-exact-suffices".into(), "check.L9.router-one-less-never-suffices".into(), "depth3.sampled".into(), "check.U1".into(), "base.with-pending-protocol-fees".into(), "base.borrower-owns-the-vault".into(), "special-script.run".into()],
     };
     (meta, total)
 }
